@@ -1,5 +1,6 @@
 //! vh — conformance harness binding the TLA+ specification in /verif/spec to the real engine.
 mod astjson;
+mod engine;
 mod conv;
 mod describe;
 mod eval;
@@ -19,6 +20,7 @@ fn main() {
         "lex-replay" => lex::replay(rest),
         "lex-record" => lex::record(rest),
         "lex-history" => lex::history(rest),
+        "lex-observe" => lex::observe_file(rest),
         "parse-replay" => parse::replay(rest),
         "parse-record" => parse::record(rest),
         "parse-one" => parse::one(rest),
@@ -30,6 +32,7 @@ fn main() {
         "builtins-record" => eval::builtins_record(rest),
         "literal-record" => eval::literal_record(rest),
         "exec-one" => eval::exec_one(rest),
+        "engine-run" => engine::run(rest),
         "conv-record" => conv::record(rest),
         "conv-replay" => conv::replay(rest),
         "describe-child" => describe::child(rest),
